@@ -92,14 +92,25 @@ type rt = { id : int; ad : ((( BinNums.coq_N * BinNums.coq_N) * BinNums.coq_N) *
             mutable errs : (bool * BinNums.coq_N list) list; mutable peers : int list list;
             mutable metered : bool (* a metrics entry exists: created by the state machine's first transition, or by rendering the router's info page *) }
 
-let to_router (r : rt) : router =
-  { r_id = n_of_int r.id; r_addr = r.ad; r_tlvs = r.tlvs; r_errs = r.errs;
+(* parse errors live in the metrics entry of the router's LABEL (router id):
+   routers whose configured template gives them the same label share them *)
+let shared_errs : (int list * (bool * BinNums.coq_N list) list ref) list ref = ref []
+let errs_of (label : int list) =
+  match Stdlib.List.assoc_opt label !shared_errs with
+  | Some l -> l
+  | None -> let l = ref [] in shared_errs := (label, l) :: !shared_errs; l
+
+let to_router (tpl : BinNums.coq_N list) (r : rt) : router =
+  let label = ints_of (format_source_id tpl [] (n_of_int r.id)) in
+  { r_id = n_of_int r.id; r_addr = r.ad; r_tlvs = r.tlvs; r_errs = !(errs_of label);
     r_peers = Stdlib.List.map (function
       | [a; b; c; d; asn] -> ((((n_of_int a, n_of_int b), n_of_int c), n_of_int d), n_of_int asn)
       | _ -> failwith "peer") r.peers }
 
 let run_case (line : string) : string =
   let api = ref (str_of_ascii "/routers/") and tpl = ref (str_of_ascii "{sys_name}") in
+  shared_errs := [];
+  let to_router r = to_router !tpl r in
   let routers : rt list ref = ref [] in
   let next_id = ref 1 in
   let out = ref [] and spec = ref [] in
@@ -122,7 +133,8 @@ let run_case (line : string) : string =
         incr next_id; routers := !routers @ [r]
     | ["E"; k; sh; f] ->
         let r = get (int_of_string k) in
-        r.errs <- r.errs @ [(sh = "s", str_of (field f))]
+        let l = errs_of (ints_of (format_source_id !tpl [] (n_of_int r.id))) in
+        l := !l @ [(sh = "s", str_of (field f))]
     | ["P"; k; a; asn] ->
         let r = get (int_of_string k) in
         (match r.tlvs with
